@@ -210,6 +210,24 @@ def Params.floatE (P : Params) (s : Str) : PyM Nat :=
 
 def Params.parseValue (P : Params) (s : Str) : PyM Num := ParseCore.parseValue P.pyInt P.pyFloat s
 
+/-- a sequence of independent checks, run in order -/
+def runChecks : List (PyM Unit) → PyM Unit
+  | [] => .ok ()
+  | c :: cs =>
+    match c with
+    | .ok _ => runChecks cs
+    | .error e => .error e
+
+/-- `if cond: raise ValueError` -/
+def raiseIf (cond : Bool) : PyM Unit := if cond then .error .valueError else .ok ()
+
+/-- `if (← cond): raise ValueError` where evaluating the condition may itself raise -/
+def raiseIfM (cond : PyM Bool) : PyM Unit :=
+  match cond with
+  | .ok true => .error .valueError
+  | .ok false => .ok ()
+  | .error e => .error e
+
 /-! ## `_unescape_help` -/
 
 def unescapeHelpAux : Str → Bool → Str
@@ -645,18 +663,16 @@ structure HSt where
   value : Option Num := some (.int 0)
 deriving Repr, DecidableEq
 
-/-- the nested `do_checks()` -/
-def doChecks (P : Params) (h : HSt) : PyM Unit := do
-  match h.bucket with
-  | none => throw .valueError
-  | some b => if !P.isPosInf b then throw .valueError
-  if h.count.isSome then
-    if ← P.cmpOpt countCmp h.value h.count then throw .valueError
-  if h.hasSum && h.count.isNone then throw .valueError
-  if h.hasGsum && h.count.isNone then throw .valueError
-  if !(h.hasSum || h.hasGsum) && h.count.isSome then throw .valueError
-  if h.hasNegBuckets && h.hasSum then throw .valueError
-  if !h.hasNegBuckets && h.hasNegGsum then throw .valueError
+/-- the nested `do_checks()`, test by test in source order -/
+def doChecks (P : Params) (h : HSt) : PyM Unit :=
+  runChecks [
+    raiseIf (match h.bucket with | none => true | some b => !P.isPosInf b),
+    (if h.count.isSome then raiseIfM (P.cmpOpt countCmp h.value h.count) else .ok ()),
+    raiseIf (h.hasSum && h.count.isNone),
+    raiseIf (h.hasGsum && h.count.isNone),
+    raiseIf (!(h.hasSum || h.hasGsum) && h.count.isSome),
+    raiseIf (h.hasNegBuckets && h.hasSum),
+    raiseIf (!h.hasNegBuckets && h.hasNegGsum)]
 
 /-- `s.labels['le']`: TypeError on `None`, KeyError when absent -/
 def leOf (s : OSample) : PyM Str :=
@@ -719,20 +735,36 @@ inductive Line
   /-- a sample line, read as a native histogram (used when the current type is `histogram`) and as a plain sample -/
   | sample (nh : PyM (Option OSample)) (plain : PyM OSample)
 
-structure St where
+/-- the family header variables: `name, documentation, typ, unit, allowed_names` -/
+structure Hdr where
   name : Option Str := none
   doc : Option Str := none
   typ : Option Str := none
   unit : Option Str := none
-  samples : List OSample := []
   allowed : List Str := []
+deriving Repr, DecidableEq
+
+/-- the per-family sample variables: `samples, group, seen_groups, group_timestamp, group_timestamp_samples` -/
+structure Grp where
+  samples : List OSample := []
   group : Option Labels := none                -- tuple(sorted(items)), or None
   seenGroups : List Labels := []
   groupTs : Option OTs := none
   gtsSamples : List (Str × Labels) := []
+deriving Repr, DecidableEq
+
+/-- what outlives a family: `seen_names` and the families yielded so far -/
+structure Glob where
   seenNames : List Str := []
-  eof : Bool := false
   out : List OFamily := []
+deriving Repr, DecidableEq
+
+structure St where
+  hdr : Hdr := {}
+  grp : Grp := {}
+  glob : Glob := {}
+  eof : Bool := false
+deriving Repr, DecidableEq
 
 /-- `for line in fd` of a StringIO: pieces end after each `\n`; the trailing `\n` of a piece is then cut off -/
 def docLinesAux : Str → Str → List Str
@@ -760,51 +792,59 @@ def parseLine (P : Params) (line : Str) : Line :=
     | _ => .bad .valueError
   else .sample (parseNhLine P line) (parseSample P line)
 
-/-- `build_metric(name, documentation, typ, unit, samples)`; returns the family and the updated `seen_names` -/
-def buildMetric (P : Params) (seen : List Str) (name : Str) (doc typ unit : Option Str) (samples : List OSample) :
-    PyM (OFamily × List Str) := do
+/-- `type_suffixes.get(typ, []) + [""]` as a set -/
+def familySuffixes (typ : Str) : List Str := (((lookupTable typ typeSuffixes).getD []) ++ [[]]).eraseDups
+
+/-- `build_metric(name, documentation, typ, unit, samples)`; returns the updated globals -/
+def buildMetric (P : Params) (g : Glob) (name : Str) (doc typ unit : Option Str) (samples : List OSample) : PyM Glob := do
   let typ := typ.getD tUnknown
-  let sufs := (((lookupTable typ typeSuffixes).getD []) ++ [[]]).eraseDups
-  let names := sufs.map (name ++ ·)
-  if names.any (seen.contains ·) then throw .valueError
-  let seen := seen ++ names
+  let names := (familySuffixes typ).map (name ++ ·)
+  raiseIf (names.any (g.seenNames.contains ·))
   let doc := doc.getD []
   let unit := unit.getD []
-  if !unit.isEmpty && !endsWith ('_' :: unit) name then throw .valueError
-  if !unit.isEmpty && unitForbidden.contains typ then throw .valueError
+  raiseIf (!unit.isEmpty && !endsWith ('_' :: unit) name)
+  raiseIf (!unit.isEmpty && unitForbidden.contains typ)
   if histTypes.contains typ then checkHistogram P samples name
   validateMetricName P.legacy name
   -- Metric.__init__
-  if !metricTypes.contains typ then throw .valueError
-  pure (⟨name, doc, typ, unit, samples⟩, seen)
+  raiseIf (!metricTypes.contains typ)
+  pure { seenNames := g.seenNames ++ names, out := g.out ++ [⟨name, doc, typ, unit, samples⟩] }
 
 /-- `if name is not None: yield build_metric(...)` -/
-def flush (P : Params) (st : St) : PyM St :=
-  match st.name with
-  | none => .ok st
-  | some n => do
-    let (fam, seen) ← buildMetric P st.seenNames n st.doc st.typ st.unit st.samples
-    pure { st with out := st.out ++ [fam], seenNames := seen }
+def flush (P : Params) (g : Glob) (h : Hdr) (samples : List OSample) : PyM Glob :=
+  match h.name with
+  | none => .ok g
+  | some n => buildMetric P g n h.doc h.typ h.unit samples
+
+/-- `allowed_names = [name + n for n in type_suffixes.get(typ, [''])]` -/
+def allowedNames (name typ : Str) : List Str := ((lookupTable typ typeSuffixes).getD [[]]).map (name ++ ·)
+
+/-- the `if parts[1] == 'HELP' … elif 'TYPE' … elif 'UNIT' … else raise` chain -/
+def applyMeta (h : Hdr) (kind cand rest : Str) : PyM Hdr :=
+  if kind == kwHelp then
+    if h.doc.isSome then .error .valueError else .ok { h with doc := some (unescapeHelp rest) }
+  else if kind == kwType then
+    if h.typ.isSome then .error .valueError
+    else if rest == untypedName then .error .valueError
+    else .ok { h with typ := some rest, allowed := allowedNames cand rest }
+  else if kind == kwUnit then
+    if h.unit.isSome then .error .valueError else .ok { h with unit := some rest }
+  else .error .valueError
 
 /-- the `#`-line branch -/
-def stepMeta (P : Params) (st : St) (kind cand rest : Str) : PyM St := do
-  if st.name == some cand && !st.samples.isEmpty then throw .valueError
-  let st ← (if st.name != some cand then do
-      let st ← flush P st
-      pure { st with name := some cand, unit := none, typ := none, doc := none, group := none, seenGroups := [],
-                     groupTs := none, gtsSamples := [], samples := [], allowed := [cand] }
-    else pure st : PyM St)
-  if kind == kwHelp then
-    if st.doc.isSome then throw .valueError
-    pure { st with doc := some (unescapeHelp rest) }
-  else if kind == kwType then
-    if st.typ.isSome then throw .valueError
-    if rest == untypedName then throw .valueError
-    pure { st with typ := some rest, allowed := ((lookupTable rest typeSuffixes).getD [[]]).map (cand ++ ·) }
-  else if kind == kwUnit then
-    if st.unit.isSome then throw .valueError
-    pure { st with unit := some rest }
-  else throw .valueError
+def stepMeta (P : Params) (st : St) (kind cand rest : Str) : PyM St :=
+  if st.hdr.name == some cand && !st.grp.samples.isEmpty then .error .valueError
+  else if st.hdr.name != some cand then
+    match flush P st.glob st.hdr st.grp.samples with
+    | .error e => .error e
+    | .ok g =>
+      match applyMeta { name := some cand, allowed := [cand] } kind cand rest with
+      | .error e => .error e
+      | .ok h => .ok { st with hdr := h, grp := {}, glob := g }
+  else
+    match applyMeta st.hdr kind cand rest with
+    | .error e => .error e
+    | .ok h => .ok { st with hdr := h }
 
 /-- `sample.labels` used as a container: TypeError / AttributeError on `None` -/
 def labelsOrType (s : OSample) : PyM Labels :=
@@ -825,53 +865,83 @@ def mathIsNaN (P : Params) : Option Num → PyM Bool
   | some (.flt b) => .ok (P.isNaN b)
   | none => .error .typeError
 
-/-- the label / value checks that precede grouping (lines 592–607) -/
-def preChecks (P : Params) (name : Str) (typ : Option Str) (s : OSample) : PyM Unit := do
+/-- line 592: `typ == 'stateset' and name not in sample.labels` -/
+def chkStatesetLabel (name : Str) (typ : Option Str) (s : OSample) : PyM Unit :=
   if typ == some tStateset then
-    if !dictHas (← labelsOrType s) name then throw .valueError
+    match labelsOrType s with
+    | .ok ls => raiseIf (!dictHas ls name)
+    | .error e => .error e
+  else .ok ()
+
+/-- lines 594–597: the `le` label of a bucket -/
+def chkLe (P : Params) (name : Str) (s : OSample) : PyM Unit :=
   if name ++ sBucket == s.name then
-    let ls ← labelsOrAttr s
-    match dictGet ls sLe with
-    | none => throw .valueError                       -- .get('le', "NaN") == "NaN"
-    | some le =>
-      if le == sNaN then throw .valueError
-      if ← isUncanonicalNumber P le then throw .valueError
-  if name ++ sBucket == s.name then
-    if ← notIntegral P s.value then throw .valueError
-  if name ++ sCount == s.name || name ++ sGcount == s.name then
-    if ← notIntegral P s.value then throw .valueError
+    match labelsOrAttr s with
+    | .error e => .error e
+    | .ok ls =>
+      match dictGet ls sLe with
+      | none => .error .valueError                    -- .get('le', "NaN") == "NaN"
+      | some le => if le == sNaN then .error .valueError else raiseIfM (isUncanonicalNumber P le)
+  else .ok ()
+
+/-- lines 598–600 -/
+def chkBucketIntegral (P : Params) (name : Str) (s : OSample) : PyM Unit :=
+  if name ++ sBucket == s.name then raiseIfM (notIntegral P s.value) else .ok ()
+
+/-- lines 601–603 -/
+def chkCountIntegral (P : Params) (name : Str) (s : OSample) : PyM Unit :=
+  if name ++ sCount == s.name || name ++ sGcount == s.name then raiseIfM (notIntegral P s.value) else .ok ()
+
+/-- lines 604–607: the `quantile` label of a summary sample -/
+def chkQuantile (P : Params) (name : Str) (typ : Option Str) (s : OSample) : PyM Unit :=
   if typ == some tSummary && name == s.name then
-    let ls ← labelsOrAttr s
-    match dictGet ls sQuantile with
-    | none => throw .valueError                       -- float(-1) is outside [0, 1]
-    | some q =>
-      let f ← P.floatE q
-      if !(P.le (.int 0) (.flt f) && P.le (.flt f) (.int 1)) then throw .valueError
-      if ← isUncanonicalNumber P q then throw .valueError
+    match labelsOrAttr s with
+    | .error e => .error e
+    | .ok ls =>
+      match dictGet ls sQuantile with
+      | none => .error .valueError                    -- float(-1) is outside [0, 1]
+      | some q =>
+        match P.floatE q with
+        | .error e => .error e
+        | .ok f =>
+          if !(P.le (.int 0) (.flt f) && P.le (.flt f) (.int 1)) then .error .valueError
+          else raiseIfM (isUncanonicalNumber P q)
+  else .ok ()
+
+/-- the label / value checks that precede grouping (lines 592–607), in source order -/
+def preChecks (P : Params) (name : Str) (typ : Option Str) (s : OSample) : PyM Unit :=
+  runChecks [chkStatesetLabel name typ s, chkLe P name s, chkBucketIntegral P name s, chkCountIntegral P name s,
+             chkQuantile P name typ s]
+
+/-- lines 613–617: the timestamp tests on a sample of the current group -/
+def chkGroupTs (P : Params) (typ : Str) (groupTs ts : Option OTs) : PyM Unit :=
+  if ts.isNone != groupTs.isNone then .error .valueError
+  else match groupTs, ts with
+    | some a, some b =>
+      -- `group_timestamp > sample.timestamp and typ != 'info'`: the comparison is evaluated first
+      match tsGt P a b with
+      | .error e => .error e
+      | .ok gt => raiseIf (gt && !tsOrderExempt.contains typ)
+    | _, _ => .ok ()
 
 /-- grouping, timestamp and duplicate handling of a non-native-histogram sample (lines 610–629) -/
-def groupStep (P : Params) (st : St) (name : Str) (typ : Str) (s : OSample) : PyM St := do
+def groupStep (P : Params) (gr : Grp) (name : Str) (typ : Str) (s : OSample) : PyM Grp := do
   let g0 ← groupForSample s name typ
   let g ← (match g0 with
     | some d => (pure (sortByKey d) : PyM Labels)
     | none => throw .attributeError)                  -- None.items()
-  let same := st.group == some g
-  if st.group.isSome && !same && st.seenGroups.contains g then throw .valueError
-  let gts ← (if st.group.isSome && same then do
-      if s.ts.isNone != st.groupTs.isNone then throw .valueError
-      match st.groupTs, s.ts with
-      | some a, some b =>
-        -- `group_timestamp > sample.timestamp and typ != 'info'`: the comparison is evaluated first
-        if (← tsGt P a b) && !tsOrderExempt.contains typ then throw .valueError
-      | _, _ => pure ()
-      pure st.gtsSamples
+  let same := gr.group == some g
+  raiseIf (gr.group.isSome && !same && gr.seenGroups.contains g)
+  let gts ← (if gr.group.isSome && same then do
+      chkGroupTs P typ gr.groupTs s.ts
+      pure gr.gtsSamples
     else pure [] : PyM (List (Str × Labels)))
   let ls ← labelsOrAttr s
   let sid := (s.name, sortByKey ls)
-  let samples := if !tsEq P s.ts st.groupTs || !gts.contains sid then st.samples ++ [s] else st.samples
-  pure { st with samples := samples, gtsSamples := if gts.contains sid then gts else gts ++ [sid],
-                 group := some g, groupTs := s.ts,
-                 seenGroups := if st.seenGroups.contains g then st.seenGroups else st.seenGroups ++ [g] }
+  let samples := if !tsEq P s.ts gr.groupTs || !gts.contains sid then gr.samples ++ [s] else gr.samples
+  pure { samples := samples, gtsSamples := if gts.contains sid then gts else gts ++ [sid],
+         group := some g, groupTs := s.ts,
+         seenGroups := if gr.seenGroups.contains g then gr.seenGroups else gr.seenGroups ++ [g] }
 
 /-- `x in [0, 1]`-style membership of a value that may be `None` -/
 def valueIn (P : Params) (v : Option Num) (xs : List Int) : Bool :=
@@ -879,41 +949,81 @@ def valueIn (P : Params) (v : Option Num) (xs : List Int) : Bool :=
   | some x => xs.any (fun k => P.eq x (.int k))
   | none => false
 
-/-- the value checks after grouping (lines 633–647) -/
-def postChecks (P : Params) (name : Str) (typ : Option Str) (s : OSample) : PyM Unit := do
-  if typ == some tStateset && !valueIn P s.value statesetValues then throw .valueError
-  if typ == some tInfo then
-    if ← P.cmpOpt infoCmp s.value (some (.int infoValue)) then throw .valueError
-  if typ == some tSummary && name == s.name then
-    if ← P.cmpOpt summaryNegCmp s.value (some (.int 0)) then throw .valueError
-  let suffix := s.name.drop name.length
-  if nanSuffixes.contains suffix then
-    if ← mathIsNaN P s.value then throw .valueError
-  if negSuffixes.contains suffix then
-    if ← P.cmpOpt .lt s.value (some (.int 0)) then throw .valueError
-  if s.exemplar.isSome &&
-      !(((typ == some tHistogram || typ == some tGaugeHistogram) && endsWith sBucket s.name)
-        || (typ == some tCounter && endsWith sTotal s.name)) then
-    throw .valueError
+def chkStatesetValue (P : Params) (typ : Option Str) (s : OSample) : PyM Unit :=
+  raiseIf (typ == some tStateset && !valueIn P s.value statesetValues)
+
+def chkInfoValue (P : Params) (typ : Option Str) (s : OSample) : PyM Unit :=
+  if typ == some tInfo then raiseIfM (P.cmpOpt infoCmp s.value (some (.int infoValue))) else .ok ()
+
+def chkSummaryNeg (P : Params) (name : Str) (typ : Option Str) (s : OSample) : PyM Unit :=
+  if typ == some tSummary && name == s.name then raiseIfM (P.cmpOpt summaryNegCmp s.value (some (.int 0))) else .ok ()
+
+def chkNaN (P : Params) (name : Str) (s : OSample) : PyM Unit :=
+  if nanSuffixes.contains (s.name.drop name.length) then raiseIfM (mathIsNaN P s.value) else .ok ()
+
+def chkNeg (P : Params) (name : Str) (s : OSample) : PyM Unit :=
+  if negSuffixes.contains (s.name.drop name.length) then raiseIfM (P.cmpOpt .lt s.value (some (.int 0))) else .ok ()
+
+/-- `sample.exemplar and not (bucket of a histogram / gaugehistogram, or _total of a counter)` -/
+def chkExemplar (typ : Option Str) (s : OSample) : PyM Unit :=
+  raiseIf (s.exemplar.isSome &&
+    !(((typ == some tHistogram || typ == some tGaugeHistogram) && endsWith sBucket s.name)
+      || (typ == some tCounter && endsWith sTotal s.name)))
+
+/-- the value checks after grouping (lines 633–647), in source order -/
+def postChecks (P : Params) (name : Str) (typ : Option Str) (s : OSample) : PyM Unit :=
+  runChecks [chkStatesetValue P typ s, chkInfoValue P typ s, chkSummaryNeg P name typ s, chkNaN P name s, chkNeg P name s,
+             chkExemplar typ s]
+
+/-- the part of the sample branch after "which family does this sample belong to" is settled: header `h` (its
+`name` always set at this point — `None + '_bucket'` would be a TypeError) -/
+def sampleChecks (P : Params) (h : Hdr) (gr : Grp) (s : OSample) (isNh : Bool) : PyM Grp :=
+  match h.name with
+  | none => .error .typeError
+  | some name =>
+    match preChecks P name h.typ s with
+    | .error e => .error e
+    | .ok _ =>
+      match (if !isNh then groupStep P gr name (h.typ.getD []) s else .ok { gr with samples := gr.samples ++ [s] }) with
+      | .error e => .error e
+      | .ok gr' =>
+        match postChecks P name h.typ s with
+        | .error e => .error e
+        | .ok _ => .ok gr'
+
+/-- "Start an unknown metric": the header of the family a stray sample opens -/
+def unknownHdr (s : OSample) : PyM Hdr :=
+  match unquoteUnescape s.name with
+  | .error e => .error e
+  | .ok (cand, quoted) =>
+    if !quoted && !isValidLegacyMetricName cand then .error .valueError
+    else .ok { name := some cand, typ := some tUnknown, allowed := [s.name] }
 
 /-- the sample-line branch, given the sample and whether it was read as a native histogram -/
-def stepSample (P : Params) (st : St) (s : OSample) (isNh : Bool) : PyM St := do
-  let st ← (if !st.allowed.contains s.name && !isNh then do
-      let st ← flush P st
-      let (cand, quoted) ← unquoteUnescape s.name
-      if !quoted && !isValidLegacyMetricName cand then throw .valueError
-      pure { st with name := some cand, doc := none, unit := none, typ := some tUnknown, samples := [], group := none,
-                     groupTs := none, gtsSamples := [], seenGroups := [], allowed := [s.name] }
-    else pure st : PyM St)
-  -- `name + '_bucket'` with `name is None` would be a TypeError; `name` is always set here
-  let name ← (match st.name with
-    | some n => (pure n : PyM Str)
-    | none => throw .typeError)
-  preChecks P name st.typ s
-  let st ← (if !isNh then groupStep P st name (st.typ.getD []) s
-    else pure { st with samples := st.samples ++ [s] } : PyM St)
-  postChecks P name st.typ s
-  pure st
+def stepSample (P : Params) (st : St) (s : OSample) (isNh : Bool) : PyM St :=
+  if !st.hdr.allowed.contains s.name && !isNh then
+    match flush P st.glob st.hdr st.grp.samples with
+    | .error e => .error e
+    | .ok g =>
+      match unknownHdr s with
+      | .error e => .error e
+      | .ok h =>
+        match sampleChecks P h {} s isNh with
+        | .error e => .error e
+        | .ok gr => .ok { st with hdr := h, grp := gr, glob := g }
+  else
+    match sampleChecks P st.hdr st.grp s isNh with
+    | .error e => .error e
+    | .ok gr => .ok { st with grp := gr }
+
+/-- which reading of a sample line the loop uses -/
+def pickSample (typ : Option Str) (nh : PyM (Option OSample)) (plain : PyM OSample) : PyM (OSample × Bool) :=
+  if typ == some tHistogram then
+    match nh with
+    | .error e => .error e
+    | .ok (some s) => .ok (s, true)
+    | .ok none => plain.map (·, false)
+  else plain.map (·, false)
 
 /-- the body of `for line in fd:` on a tokenised line -/
 def stepLine (P : Params) (st : St) (l : Line) : PyM St :=
@@ -924,17 +1034,9 @@ def stepLine (P : Params) (st : St) (l : Line) : PyM St :=
     | .bad e => .error e
     | .metadata kind cand rest => stepMeta P st kind cand rest
     | .sample nh plain =>
-      if st.typ == some tHistogram then
-        match nh with
-        | .error e => .error e
-        | .ok (some s) => stepSample P st s true
-        | .ok none =>
-          match plain with
-          | .error e => .error e
-          | .ok s => stepSample P st s false
-      else match plain with
-        | .error e => .error e
-        | .ok s => stepSample P st s false
+      match pickSample st.hdr.typ nh plain with
+      | .error e => .error e
+      | .ok (s, isNh) => stepSample P st s isNh
 
 def run (P : Params) : St → List Line → PyM St
   | st, [] => .ok st
@@ -944,10 +1046,10 @@ def run (P : Params) : St → List Line → PyM St
     | .error e => .error e
 
 /-- what follows the loop: the last family, then the EOF test -/
-def finish (P : Params) (st : St) : PyM (List OFamily) := do
-  let st ← flush P st
-  if !st.eof then throw .valueError
-  pure st.out
+def finish (P : Params) (st : St) : PyM (List OFamily) :=
+  match flush P st.glob st.hdr st.grp.samples with
+  | .error e => .error e
+  | .ok g => if !st.eof then .error .valueError else .ok g.out
 
 /-- the family state machine on tokenised lines -/
 def assemble (P : Params) (ls : List Line) : PyM (List OFamily) :=
